@@ -16,6 +16,7 @@ RULE = (
     "with ClientError and its Deferred fires only when the connection is gone. non-trivial = a drop with unanswered plus "
     "answered/cancelled requests, or >= 2 drops, or >= 2 consecutive connect failures; distinct = distinct trace."
     ' Retry policies ask for up to 40 s between attempts (lin/exp/const with bases up to 40), so caps and resets of the failure count are visible.'
+    ' A connection attempt may fail before connect() returns (op syncref): it counts as a failed attempt made at that instant, the next one is due one retry-policy delay later, close() during that back-off cancels it.'
 )
 ASSUMPTIONS = [
     "writes and connection attempts are expected in the same step as their trigger (the broker client performs them synchronously)",
